@@ -112,7 +112,7 @@ Theorem C04_rank_counts_strictly_smaller_keys :
 Proof. exact rank_of_is_count. Qed.
 Print Assumptions C04_rank_counts_strictly_smaller_keys.
 
-From Arrai Require Import Rep.RelJoin Proofs.RelJoinP Rep.GenJoin Proofs.GenJoinP.
+From Arrai Require Import Rep.RelJoin Proofs.RelJoinP Rep.GenJoin Proofs.GenJoinP Rep.RelNest Proofs.RelNestP.
 (* ------------------------------------------------------------------------------------------
    The positional join engine of the implementation (Rep/RelJoin.v: Relation.Join,
    positionalRelation.Join with createMode and its four strategies, the Joiner's choice of
@@ -265,3 +265,34 @@ Proof.
   apply Forall_cons; [|apply Forall_cons; [|apply Forall_nil]];
     (split; [intros q [<-|[]]; reflexivity | split; [intros q [] | exact I]]).
 Qed.
+
+(* ------------------------------------------------------------------------------------------
+   nest over a Relation (Rep/RelNest.v: nestWithFunc, validNestOp, Nest, SingleAttrNest, Reduce, working on
+   the tuples the Relation enumerates from its stored rows), for EVERY well-formed relation in any stored
+   column order, every attribute list and every target name: where the specification gives a value the
+   implementation model gives the same value; the validNestOp panic (names not all attributes - exactly
+   then) and the clash of the target name with a key attribute are exactly the specification's two
+   Unspec regions; nothing else can happen. *)
+Theorem C04_positional_nest_refines_spec :
+  forall names n r, wf_rel r ->
+    nest_view (nest_data names n (abs r)) (nest_rel names n r)
+    /\ (nest_rel names n r = NPanic <-> ~ incl names (r_attrs r)).
+Proof. exact nest_refines_spec. Qed.
+Print Assumptions C04_positional_nest_refines_spec.
+
+Theorem C04_positional_single_nest_refines_spec :
+  forall n r, wf_rel r ->
+    nest_view (single_nest_data n (abs r)) (single_nest_rel n r)
+    /\ (single_nest_rel n r = NPanic <-> ~ In n (r_attrs r)).
+Proof. exact single_nest_refines_spec. Qed.
+Print Assumptions C04_positional_single_nest_refines_spec.
+
+Example C04_example_nest :
+  nest_rel [[99]] [110] ex_ca
+  = NOk (VSet [VTup [([97], vint 5); ([110], VSet [VTup [([99], vint 1)]; VTup [([99], vint 2)]])];
+               VTup [([97], vint 7); ([110], VSet [VTup [([99], vint 3)]])]])
+  /\ nest_rel [[99]] [110] ex_ac = nest_rel [[99]] [110] ex_ca
+  /\ single_nest_rel [99] ex_ca
+     = NOk (VSet [VTup [([97], vint 5); ([99], VSet [vint 1; vint 2])]; VTup [([97], vint 7); ([99], VSet [vint 3])]])
+  /\ nest_rel [[120]] [110] ex_ca = NPanic /\ nest_rel [[99]] [97] ex_ca = NClash.
+Proof. repeat split; vm_compute; reflexivity. Qed.
